@@ -407,3 +407,15 @@ contract("specs.ldapmsg:thm_rt_control",
                   "implies(not critical and has_val, content_of(%s) == val)" % _CV1,
                   "implies(critical, %s == has_val)" % _HU("rest_of(%s)" % _CV1, 4),
                   "implies(critical and has_val, content_of(rest_of(%s)) == val)" % _CV1])
+_PA = "cat(e, tail)"
+_PAV = "content_of(rest_of(content_of(%s)))" % _PA
+contract("specs.ldapmsg:thm_rt_partial_attribute",
+         requires=["tlv_of(e, 0, True, 16, cat(e_type, e_vals))", "tlv_of(e_type, 0, False, 4, name_b)", "tlv_of(e_vals, 0, True, 17, c_vals)",
+                   "octs_enc(c_vals, xs, 0, len(xs), 0, 4)", "0 <= count",
+                   # the decoder's postcondition about the values it collected (contracts/decode.py, _unpack_partial_attribute)
+                   "len(nth_rest(%s, count)) == 0" % _PAV, "forall(k, 0, count, len(nth_rest(%s, k)) > 0)" % _PAV],
+         ensures=["rest_of(%s) == tail" % _PA, "content_of(content_of(%s)) == name_b" % _PA, "%s == c_vals" % _PAV,
+                  "count == len(xs)", "implies(0 <= q and q < len(xs), content_of(nth_rest(%s, q)) == xs[q])" % _PAV])
+contract("specs.ldapmsg:thm_rt_present", requires=["tlv_of(e, 2, False, 7, attr_b)"],
+         ensures=["id_class(cat(e, tail)) == 2", "id_number(cat(e, tail)) == 7", "not id_constructed(cat(e, tail))",
+                  "content_of(cat(e, tail)) == attr_b", "rest_of(cat(e, tail)) == tail"])
